@@ -65,6 +65,12 @@ CHECKS = {
  "C23": ("law-engine", "exploration", "exhaustive enumeration of algorithms x plaintext lengths x key/IV patterns; ip x mode x key",
          "All 32 algorithms (table cross-checked at run time against the functions' own usage text) x 3 spellings x plaintext lengths 0..50 and block boundaries x 6x6 key/IV patterns; 1296 IPv4 and ~540 IPv6 addresses x 2 modes x 9 keys: decrypt(encrypt(p)) == p, documented key sizes accepted.",
          "A pfx key with equal halves may be rejected with an error (algorithm restriction), never with a panic.", "3.7"),
+ "C24": ("law-engine", "exploration", "exhaustive enumeration of flat objects / lists over delimiter-heavy string alphabets x delimiter and parser options",
+         "Every one-entry object over all strings of length 1-2 over 13 symbols (space, quotes, backslash, =, comma, colon, |, LF, TAB, é) plus 35 longer words, every two-entry object over the length-1 strings and three-entry objects, x 4 delimiter pairs x parser options x fields_ordering through encode_key_value/parse_key_value and encode_logfmt/parse_logfmt; lists of 0-3 strings x 5 delimiters through encode_csv/parse_csv: the parsed result equals the original.",
+         "Non-default parser options are judged differentially (only if the object round-trips with default options).", "3.7"),
+ "C25": ("law-engine", "exploration", "exhaustive enumeration of inputs for each inverse pair",
+         "flatten/unflatten over objects of depth 1-3 x 4 separators x recursive; to_entries/from_entries; 16^4 IPv4 addresses x 6 compositions (thorough: all 2^32), 4^8 IPv6 addresses; format_int/parse_int for every base 2-36 x boundary integers; unix timestamps x 5 units; format_timestamp/parse_timestamp over 14 full-precision formats x 5 timezone arguments: the composition returns its input.",
+         "Mistakes applied symmetrically to both functions of a pair are not visible.", "3.7"),
  "C26": ("law-engine", "exploration", "exhaustive enumeration of messages with <= 4 populated fields per message type",
          "For all 19 message types found in the 4 bundled descriptor sets (read at run time): every object with <= 4 populated fields from per-type edge alphabets (integer widths, floats, strings, bytes, enums, nested messages, repeated, maps with every key type) x allow_lossy_string_coercion omitted/true/false through encode_proto! then parse_proto!, compared after dropping proto3 defaults.",
          "Symmetric bugs inside prost itself are not visible.", "3.7"),
